@@ -37,13 +37,16 @@ pub struct Kind {
     /// HTTP entry reached over a real TCP socket (an in-process `HttpServer`), so that actix's
     /// HTTP/1 codec is in the path
     pub socket: bool,
+    /// two server instances (each with its own storage object) on one SQLite directory; requests
+    /// go to either one
+    pub peers: bool,
 }
 
 impl Kind {
-    pub const MEM_LIB: Kind = Kind { backend: Backend::Mem, entry: Entry::Lib, reopen_pct: 0, socket: false };
-    pub const MEM_HTTP: Kind = Kind { backend: Backend::Mem, entry: Entry::Http, reopen_pct: 0, socket: false };
-    pub const SQL_LIB: Kind = Kind { backend: Backend::Sqlite, entry: Entry::Lib, reopen_pct: 0, socket: false };
-    pub const SQL_HTTP: Kind = Kind { backend: Backend::Sqlite, entry: Entry::Http, reopen_pct: 0, socket: false };
+    pub const MEM_LIB: Kind = Kind { backend: Backend::Mem, entry: Entry::Lib, reopen_pct: 0, socket: false, peers: false };
+    pub const MEM_HTTP: Kind = Kind { backend: Backend::Mem, entry: Entry::Http, reopen_pct: 0, socket: false, peers: false };
+    pub const SQL_LIB: Kind = Kind { backend: Backend::Sqlite, entry: Entry::Lib, reopen_pct: 0, socket: false, peers: false };
+    pub const SQL_HTTP: Kind = Kind { backend: Backend::Sqlite, entry: Entry::Http, reopen_pct: 0, socket: false, peers: false };
     pub fn name(&self) -> String {
         format!(
             "{}/{}{}",
@@ -56,7 +59,7 @@ impl Kind {
                 Entry::Http => "http",
             },
             if self.socket && self.reopen_pct > 0 { format!("+executable+restart{}", self.reopen_pct) } else if self.socket { "+socket".to_string() } else if self.reopen_pct > 0 { format!("+reopen{}", self.reopen_pct) } else { String::new() }
-        )
+        ) + if self.peers { "+2instances" } else { "" }
     }
 }
 
@@ -107,6 +110,9 @@ pub struct Subject {
     pub storage: Arc<dyn Storage>,
     /// storage as seen by the server (possibly wrapped)
     front: Option<Front>,
+    /// second server instance on the same directory (`kind.peers`)
+    peer: Option<Front>,
+    peer_turn: u64,
     pub dir: Option<ScratchDir>,
     pub wrap: Option<StorageWrap>,
     pub last_http: Option<(HttpReq, HttpResp)>,
@@ -134,17 +140,17 @@ impl Subject {
                 (Arc::new(s), Some(d))
             }
         };
-        let mut s = Subject { kind, config, allowlist, storage, front: None, dir, wrap, last_http: None, reopens: 0, tap: None, binary: false };
+        let mut s = Subject { kind, config, allowlist, storage, front: None, peer: None, peer_turn: 0, dir, wrap, last_http: None, reopens: 0, tap: None, binary: false };
         s.build_front();
         Ok(s)
     }
 
     /// A subject served by the real executable (SQLite backend), optionally with an allow-list.
     pub fn with_binary(config: Config, allowlist: Option<HashSet<Uuid>>, reopen_pct: u32) -> anyhow::Result<Subject> {
-        let kind = Kind { backend: Backend::Sqlite, entry: Entry::Http, reopen_pct, socket: true };
+        let kind = Kind { backend: Backend::Sqlite, entry: Entry::Http, reopen_pct, socket: true, peers: false };
         let d = ScratchDir::new("dbbin");
         let st = SqliteStorage::new(d.path())?;
-        let mut s = Subject { kind, config, allowlist, storage: Arc::new(st), front: None, dir: Some(d), wrap: None, last_http: None, reopens: 0, tap: None, binary: true };
+        let mut s = Subject { kind, config, allowlist, storage: Arc::new(st), front: None, peer: None, peer_turn: 0, dir: Some(d), wrap: None, last_http: None, reopens: 0, tap: None, binary: true };
         s.start_binary()?;
         Ok(s)
     }
@@ -182,6 +188,8 @@ impl Subject {
             allowlist: None,
             storage: Arc::new(st),
             front: None,
+            peer: None,
+            peer_turn: 0,
             dir: Some(dir),
             wrap: None,
             last_http: None,
@@ -219,6 +227,25 @@ impl Subject {
             }
             (None, Backend::Mem, Entry::Http) => self.http_front(WebServer::new(cfg, self.allowlist.clone(), Shared(self.storage.clone()))),
         });
+        self.peer = None;
+        if self.kind.peers && self.wrap.is_none() && self.kind.backend == Backend::Sqlite {
+            let own = SqliteStorage::new(self.dir.as_ref().unwrap().path()).expect("open sqlite storage");
+            let cfg = self.config.to_server();
+            self.peer = Some(match self.kind.entry {
+                Entry::Lib => Front::Lib(Arc::new(Server::new(cfg, own))),
+                Entry::Http => self.http_front(WebServer::new(cfg, self.allowlist.clone(), own)),
+            });
+        }
+    }
+
+    /// which instance serves the next request (deterministic, irregular)
+    fn use_peer(&mut self) -> bool {
+        if self.peer.is_none() {
+            return false;
+        }
+        self.peer_turn += 1;
+        let x = self.peer_turn.wrapping_mul(0x9E3779B97F4A7C15) >> 61;
+        x < 4
     }
 
     fn http_front(&self, web: WebServer) -> Front {
@@ -279,6 +306,7 @@ impl Subject {
         }
         if let (Backend::Sqlite, Some(d)) = (self.kind.backend, &self.dir) {
             self.front = None;
+            self.peer = None;
             let st = SqliteStorage::new(d.path())?;
             self.storage = Arc::new(st);
             self.build_front();
@@ -362,7 +390,9 @@ impl Subject {
     }
 
     pub fn exec(&mut self, client: Uuid, req: &Req) -> Resp {
-        match self.front.as_mut().unwrap() {
+        let use_peer = self.use_peer();
+        let front = if use_peer { self.peer.as_mut().unwrap() } else { self.front.as_mut().unwrap() };
+        match front {
             Front::Http(app) => {
                 let h = Self::build_http(client, req);
                 let r = app.request(&h);
